@@ -91,6 +91,10 @@ func (g *gen) relSpelling(from, to string) string {
 			g.feat["spelling:./"]++
 			return "./" + rel
 		}
+		// "here, then up": the same place as without the leading "./"
+		g.feat["spelling:./../"]++
+		g.feat["spelling:../"]++
+		return "./" + rel
 	case 1:
 		// through a directory and back
 		if i := strings.LastIndex(rel, "/"); i < 0 {
@@ -426,7 +430,7 @@ func (g *gen) pickOtherDoc(file string) string {
 }
 
 func (g *gen) elementFile(kind, from string, depth int) string {
-	dirs := []string{"api", "api/sub", "shared", "api/el", "api/défs"} // the last one: letters outside ASCII in a directory name
+	dirs := []string{"api", "api/sub", "shared", "api/el", "api/défs", "api/.conf"} // the last two: letters outside ASCII in a directory name, and a name that begins with a dot
 	dir := rapid.SampledFrom(dirs).Draw(g.t, "eldir")
 	name := fmt.Sprintf("%s/el_%s%d.json", dir, kind, len(g.elems)+1)
 	if g.base != "" {
